@@ -12,6 +12,14 @@ meta = json.load(open(os.path.join(seed, "meta.json")))
 env = dict(os.environ, GOFLAGS="-mod=mod", GOPROXY="off", GOSUMDB="off", GOTOOLCHAIN="local")
 wt = tempfile.mkdtemp(prefix="seedrun_", dir="/tmp")
 os.rmdir(wt)
+def demo_cmd(run):
+    """the demonstration's command, never answered from the test cache (a demo that shells out does not depend on the patched file)"""
+    a = shlex.split(run)
+    if a[:2] == ["go", "test"] and not any(x.startswith("-count") for x in a):
+        a.insert(2, "-count=1")
+    return a
+
+
 def sh(cmd, cwd=None, e=None, timeout=3600):
     p = subprocess.run(cmd, cwd=cwd, env=e or env, stdout=subprocess.PIPE, stderr=subprocess.STDOUT, text=True, timeout=timeout)
     return p.returncode, p.stdout
@@ -30,7 +38,7 @@ try:
     demo_dst = os.path.join(wt, meta["demo_path"])
     os.makedirs(os.path.dirname(demo_dst), exist_ok=True)
     shutil.copy(demo_src, demo_dst)
-    rc, out = sh(shlex.split(meta["demo_run"]), cwd=wt)
+    rc, out = sh(demo_cmd(meta["demo_run"]), cwd=wt)
     res["demo_clean_pass"] = rc == 0
     if rc != 0: res["demo_clean_out"] = out[-1500:]
     pkgs = sorted({"./" + os.path.dirname(f) + "/" for f in meta.get("files_changed", []) if f.endswith(".go")})
@@ -48,7 +56,7 @@ try:
     rc, out = sh(["go", "build"] + pk, cwd=wt, e=dict(env, CGO_ENABLED="0"))
     res["builds"] = rc == 0
     if rc != 0: res["build_out"] = out[-1500:]
-    rc, out = sh(shlex.split(meta["demo_run"]), cwd=wt)
+    rc, out = sh(demo_cmd(meta["demo_run"]), cwd=wt)
     res["demo_patched_fails"] = rc != 0
     os.remove(demo_dst)
     rc, out = sh([os.path.join(os.path.dirname(os.path.dirname(os.path.abspath(__file__))), "bin/baseline_off")] + pkgs, e=dict(env, VERIF_REPO=wt))
